@@ -26,6 +26,7 @@ DECIDED = [
     "falls back to the inline payload",
     "R-C07-FALSY (tests): on the transport path (job, brokers, consumers, processor) no truthiness test decides about a payload / priority / arguments value - presence is tested with `is None`",
     "R-C07-ALPHABET (prefix): the Redis topic prefixes end with the ':' separator (C11's rule reused)",
+    "R-C07-MAP (fresh defaults): ids / timestamps / containers that must differ per object are produced by default_factory (dataclasses) or in the body (functions), never as eager defaults; R-C07-MARKER table row: explicit args_id + args + bucketer -> bucket stored",
 ]
 NOT_DECIDED = ["value-level identity decode(encode(x)) == x (float round trip of durations at microsecond precision, timezones)"]
 ASSUMPTIONS = ["json round-trips str/int/bool/None; datetime.isoformat/fromisoformat and total_seconds/timedelta(seconds=float) are mutually inverse at the stated precision"]
